@@ -75,6 +75,11 @@ def run(pid, tier, seed, extra_model=None):
         distinct.add(key)
         if pid == "C05" or any(nontriv(st) for st in s):
             nontrivial += 1
+    if pid in ("C01", "C03", "C05", "C06", "C08"):
+        # the production default records no call traces: the same machine, the same histories, trace recording off (everything that
+        # is derived from the execution must not depend on the trace being STORED)
+        k = 10 if tier == "quick" else 60
+        cov["traces_off"] = tracecheck.run_corpus(pid, pid.lower() + "_notrace", scheds[:k] + scheds[-6:], v, shards=8, traces="off")
     if pid == "C06":
         # mainnet below 929 000: the legacy transaction identity (known finding D17 is exhibited here on every run) and the
         # coherence laws across the switch to the hash of the signed bytes
